@@ -15,12 +15,14 @@
 (***************************************************************************)
 EXTENDS Cache, Json, IOUtils
 LOCAL INSTANCE Config
+\* the TinyLFU / sampled-LFU rule (C07), re-run on the rounds recorded inside policy.add
+LOCAL INSTANCE PolicyRule WITH RNil <- Nil, RSamples <- 5
 
 CONSTANT Cmp      \* subset of {"store","em","costs","chan","life","met","cbs","out"}
 
 VARIABLE l
 TraceVal == 1 .. 400
-CmpAll == {"store", "em", "costs", "chan", "life", "met", "cbs", "out", "vttl", "pop"}
+CmpAll == {"store", "em", "costs", "chan", "life", "met", "cbs", "out", "vttl", "pop", "rounds"}
 Rec == ndJsonDeserialize(IOEnv.TRACE)
 tvars == <<vars, l>>
 
@@ -53,9 +55,9 @@ PostOK ==
     /\ ("chan" \in Cmp /\ ~Ev.racy) => ((ProcAlive' => (Len(buf') = p.buf /\ clearQ' = p.clearq))
                             /\ (Flavor = "async" /\ ProcAlive' => stopQ' = p.stopq))
     /\ ("life" \in Cmp) => (closed' = p.closed /\ pol'.closed = p.polclosed)
-    /\ ("met" \in Cmp) => met' = MetOf(p)
+    /\ ("met" \in Cmp /\ ~Ev.nomet) => met' = MetOf(p)
     \* ratio() is hits / (hits + misses), 0 when there were no lookups (compared at 1e-6, hits < 2000)
-    /\ ("met" \in Cmp /\ p.met.hit < 2000) =>
+    /\ ("met" \in Cmp /\ ~Ev.nomet /\ p.met.hit < 2000) =>
           (p.met.ratio_ppm - (IF p.met.hit + p.met.miss = 0 THEN 0 ELSE (p.met.hit * 1000000) \div (p.met.hit + p.met.miss))) \in {0, 1}
     \* no entry is ever tracked by this version (track_admission), so the life-expectancy histogram stays empty
     /\ ("met" \in Cmp) => p.met.life_count = 0
@@ -70,7 +72,7 @@ PostOKStutter ==
     /\ ("costs" \in Cmp) => (costs = CostsOf(p) /\ used = p.used /\ maxCost = p.max)
     /\ ("chan" \in Cmp) => (ProcAlive => (Len(buf) = p.buf /\ clearQ = p.clearq))
     /\ ("life" \in Cmp) => (closed = p.closed /\ pol.closed = p.polclosed)
-    /\ ("met" \in Cmp) => met = MetOf(p)
+    /\ ("met" \in Cmp /\ ~Ev.nomet) => met = MetOf(p)
 
 OutOK == ("out" \in Cmp) =>
     IF Ev.out.t = "pending" THEN res' = Nil ELSE (res' # Nil /\ res'.out = Ev.out /\ res'.c = Ev.c)
@@ -137,8 +139,16 @@ TClient ==
     \/ Is("Observe") /\ Step(Observe(C))
 
 TProc ==
-    \/ Is("PNewAdd") /\ Step(PNewAdd(Ev.add.path, Victims(Ev.add), Ev.add.added))
-                     /\ Ev.add.k = proc'.item.i /\ Ev.add.cost = proc'.cost
+    \/ /\ Is("PNewAdd") /\ Step(PNewAdd(Ev.add.path, Victims(Ev.add), Ev.add.added))
+       /\ Ev.add.k = proc'.item.i /\ Ev.add.cost = proc'.cost
+       \* C07 inside the cache: every recorded round of the eviction loop is a legal round of the rule from the
+       \* charges of the pre-state, with the estimates the code used (fed by real lookups and bumps)
+       /\ ("rounds" \in Cmp /\ Ev.add.path \in {"evicted", "rejected"}) =>
+            /\ RSameIncHits(Ev.rounds)
+            /\ LET rr == RLoop(costs, used, maxCost, Ev.rounds, 1, 0, <<>>, Ev.add.k, Ev.add.cost) IN
+                 /\ rr.ok /\ rr.added = Ev.add.added
+                 /\ rr.victims = Victims(Ev.add)
+       /\ ("rounds" \in Cmp /\ Ev.add.path \notin {"evicted", "rejected"}) => Len(Ev.rounds) = 0
     \/ Is("PNewStore") /\ Step(PNewStore)
     \/ Is("PVictim") /\ Step(PVictim)
     \/ Is("PUpd") /\ Step(PUpd)
